@@ -481,6 +481,11 @@ namespace BitSerializer::Convert::Detail
 	{
 		const CDateTimeParts<> utc = ParseIsoUtc(in);
 
+		// A year at the very beginning of the 64-bit range does not fit any time point (and would overflow the calculations below)
+		if (utc.Year < std::numeric_limits<int64_t>::min() + 400) {
+			throw std::out_of_range("Target timepoint range is not enough");
+		}
+
 		// Based on Howard Hinnant's algorithm
 		static_assert(sizeof(int) >= 4, "This algorithm has not been ported to a 16 bit integers");
 		auto const y = utc.Year - (utc.Month <= 2);
